@@ -59,8 +59,8 @@ def local_roles(fn: ast.FunctionDef) -> dict[str, str]:
         if r in ("pars", "vars"):
             roles[tgt] = r
         elif (isinstance(val, ast.BinOp) and isinstance(val.op, ast.BitOr)
-              and _comp_role(val.left) == "ia_vars" and _comp_role(val.right) == "ia_pars"):
-            # the model's `omUnion (iaOf c.vars) (iaOf c.pars)`: variables' assignments first
+              and sorted([str(_comp_role(val.left)), str(_comp_role(val.right))]) == ["ia_pars", "ia_vars"]):
+            # the model's `omUnion (iaOf c.vars) (iaOf c.pars)`; the two have distinct keys, either order
             roles[tgt] = "ias"
     return roles
 
@@ -132,11 +132,18 @@ def eval_loop(fn: ast.FunctionDef, over: str | None) -> tuple[str, str, str]:
 
 
 def combinator(name: str, params: list[str], e: ast.expr, doc: str, roles) -> str:
+    """the `|` chain as a union of its operands in CANONICAL order (`params`): the operand SET is what the obligation
+    is about — the containers have pairwise distinct keys (`Model._ids`), so the order of the operands only changes
+    dict insertion order, which no observable depends on (C02's order-independence theorems); a dropped, added or
+    duplicated operand is refused"""
     used = leaves(e, roles)
     if sorted(used) != sorted(params):
         raise Unsupported(f"{name}: operands {used} are not exactly {params} (each once)")
-    return (f"/-- `{doc}`: the union of {' | '.join(used)} in this order -/\n"
-            f"def {name} {{α : Type}} (u : α → α → α) ({' '.join(params)} : α) : α :=\n  {union_term(e, roles)}\n\n")
+    term = params[0]
+    for q in params[1:]:
+        term = f"(u {term} {q})"
+    return (f"/-- `{doc}`: the union of {' | '.join(params)} in this order -/\n"
+            f"def {name} {{α : Type}} (u : α → α → α) ({' '.join(params)} : α) : α :=\n  {term}\n\n")
 
 
 # get_arg_names: the call that supplies a group -> group label
